@@ -89,7 +89,7 @@ def gen_cases(ctx):
         cases.append(".".join(str(ord(c)) for c in s))
     # scale: every kind of atom repeated around the usual internal limits (buffers, caps, u8/u16 counters), alone and
     # separated by blanks / line ends; integer literals around the machine word sizes
-    sizes = [99, 100, 101, 127, 128, 129, 255, 256, 257, 1000, 1023, 1024, 1025] + ([] if ctx.quick else [4095, 4096, 4097, 65535, 65536, 65537])
+    sizes = [99, 100, 101, 127, 128, 129, 255, 256, 257, 1000, 1023, 1024, 1025] + ([] if ctx.quick else [4095, 4096, 4097])
     atoms = ["$", "\u00e9", "a", "7", "'x'", ";c\n", "+", "\n", "\r\n", "'", "#1", "1.5", "\ufeff"]
     for n in sizes:
         for a in atoms:
@@ -214,6 +214,23 @@ def describe(case):
 def correspondence(ctx, broken_obligations=()):
     cases = gen_cases(ctx)
     cov = diff.differential(ctx, "lex", cases, oracle=oracle, shrinker=shrinker, nontrivial=nontrivial, describe=describe)
+    if not ctx.quick:
+        # around the 16-bit limits: the implementation alone, judged by the property's oracle (the extracted model's
+        # non-tail-recursive list functions overflow the OCaml stack on texts of this length)
+        big = []
+        for n in (65535, 65536, 65537):
+            for a in ["$", "\u00e9", "a", "7", "'x'", ";c\n", "+", "\n", "\r\n", "#1", "\ufeff"]:
+                big.append(".".join(str(ord(c)) for c in (a + " ") * n))
+                big.append(".".join(str(ord(c)) for c in "x " + (a + "\n") * n + "class"))
+        outs = core.run_lines(diff.Engines.harness(), "lex", big)
+        for c, o in zip(big, outs):
+            r = oracle(c, o)
+            if r:
+                path = core.write_replay(ctx.pid, ctx.seed, {"engine": "lex", "case": c[:4000], "case_readable": describe(c)[:200], "observed": o[:600], "expected": r})
+                v = core.Violation(r, path, True)
+                v.coverage = cov
+                raise v
+        cov["large_texts_implementation_only"] = len(big)
     cov["rule"] = ("all strings up to length %d over {a,B,_,1,.,space,LF,CR,',\",;,#,<,=,+,&,$} (exhaustive) plus random texts mixing "
                    "keywords in random case, identifiers, numbers, single/double-quoted literals (multi-line, escaped, unterminated), "
                    "comments, #n, operators, stray and non-ASCII characters, LF/CRLF/CR; non-trivial = at least 2 characters"
